@@ -14,7 +14,7 @@ RULE = ('cases = arguments of domainvalid / parselocalpart / parseaddr+checkaddr
         'addrparse: sampled from the RFC 5321 grammar (labels, dot-strings, quoted strings with quoted pairs and obsolete controls, '
         'IPv4/IPv6 literals, source routes), label lengths 1,2,62..65, totals 252..258, literal lengths 14..17 / 44..47, route lengths '
         '254..259, xtext decodings 317..323 octets, near-miss mutations (one byte changed, inserted or dropped, NUL/CR/LF/8-bit/DEL), '
-        'all strings up to length 4 over a 9-symbol alphabet for domainvalid and parselocalpart, random bytes; every string sits at the end '
+        'all strings up to length 3 (quick) or 5 (thorough) over 9-symbol alphabets for domainvalid and parselocalpart, random bytes; every string sits at the end '
         'of a page followed by PROT_NONE and in an exact-size heap block under ASan; '
         'non-trivial = the C accepted the input (return 0 of domainvalid, length > 0, code >= 3, xtext length > 0, ACCEPT); distinct by case text')
 TRUSTED_BASE = [
